@@ -11,7 +11,10 @@ try:
     shutil.copytree("/repo", repo, ignore=shutil.ignore_patterns("__pycache__", "*.pyc", ".pytest_cache"))
     r = subprocess.run(["git", "-C", repo, "apply", "--whitespace=nowarn", os.path.abspath(os.path.join(sd, "patch.diff"))], capture_output=True, text=True)
     if r.returncode:
-        print("PATCH DOES NOT APPLY:", r.stderr); sys.exit(4)
+        r = subprocess.run(["patch", "-p1", "-F3", "--binary", "-d", repo, "-i", os.path.abspath(os.path.join(sd, "patch.diff"))], capture_output=True, text=True)
+        if r.returncode:
+            print("PATCH DOES NOT APPLY:", r.stdout, r.stderr); sys.exit(4)
+        print("(patch applied with fuzz: the tree has moved since the seed was written)")
     env = dict(os.environ, VERIF_REPO=repo, VERIF_EVIDENCE_DIR=os.path.join(d, "evidence"), VERIF_REPLAYS_DIR=os.path.join(d, "replays"))
     p = subprocess.run([os.path.join(HERE, "check"), prop] + extra, env=env, capture_output=True, text=True)
     print(p.stdout[-3000:]); print(p.stderr[-1500:]); print("exit", p.returncode)
